@@ -20,9 +20,9 @@ PID = "C09"
 LEVEL = "exploration"
 CASE_TIMEOUT = 40
 RULE = (
-    "program from the co2 grammar (1-4 helper flows h_i that only reference h_j, j>i; every while body starts with a wait; main ends in "
+    "3 of 4 cases: program from the co2 grammar (1-4 helper flows h_i that only reference h_j, j>i; every while body starts with a wait; main ends in "
     "`match Never()`) x history of 1-30 items (Ev0..Ev3 with v in {None,0,1}; Started/Finished of the k-th running action) x 0-3 tie-break "
-    "choices; invariants I1-I6 are evaluated after the start and after every event. Non-trivial = the program forks heads (group/when) AND "
+    "choices; 1 of 4 cases: the shipped library (core, timing, avatars) under a generated main that activates 0-5 library flows and loops over 1-4 `when <user flow> / <bot flow>` cases, with histories of user utterances (final/interim/started), Ev0 and Started/Finished of running actions (timers, utterances, gestures, CheckFlowDefinedAction); invariants I1-I6 are evaluated after the start and after every event. Non-trivial = the program forks heads (group/when) AND "
     "some flow instance with children or actions ended during the history AND the history has >= 10 events; distinct by (program, history)."
 )
 ASSUMPTIONS = [
@@ -36,8 +36,72 @@ def budget(tier):
     return 8000 if tier == "quick" else 100000
 
 
+LIB_ACTIVATE = [
+    "tracking bot talking state",
+    "tracking user talking state",
+    "notification of colang errors",
+    "notification of undefined flow start",
+    "notification of unexpected user utterance",
+    'handling bot talking interruption $mode="inform"',
+    "managing listening posture",
+    "managing talking posture",
+    "tracking visual choice selection state",
+]
+LIB_USER = [
+    'user said "hi"',
+    "user said something",
+    'user saying "stop"',
+    "user was silent 2.0",
+    "user didnt respond 3.0",
+    'user gestured "wave"',
+    "user said something unexpected",
+    'user said "bye" or user said "ciao"',
+]
+LIB_BOT = [
+    'bot say "hello"',
+    'bot inform "info"',
+    'bot gesture "nod"',
+    'bot say "a" and bot gesture "b"',
+    'bot ask "how are you"',
+    "bot was silent 1.0",
+    'start bot say "long text" as $ref\n      match Ev0()\n      send $ref.Stop()',
+    "undefined flow name",
+]
+LIB_TEXTS = ["hi", "bye", "please stop now", "something else", ""]
+
+
+@st.composite
+def _lib_case(draw):
+    acts = draw(st.lists(st.integers(0, len(LIB_ACTIVATE) - 1), unique=True, max_size=5))
+    cases = draw(st.lists(st.tuples(st.integers(0, len(LIB_USER) - 1), st.integers(0, len(LIB_BOT) - 1)).map(list), min_size=1, max_size=4, unique_by=lambda x: x[0]))
+    item = st.one_of(
+        st.tuples(st.just("say"), st.integers(0, len(LIB_TEXTS) - 1)),
+        st.tuples(st.just("say"), st.integers(0, len(LIB_TEXTS) - 1)),
+        st.tuples(st.just("saying"), st.integers(0, len(LIB_TEXTS) - 1)),
+        st.tuples(st.just("ustart"), st.just(0)),
+        st.tuples(st.just("ev"), st.just(0), st.none()),
+        st.tuples(st.just("finished"), st.integers(0, 3)),
+        st.tuples(st.just("finished"), st.integers(0, 3)),
+        st.tuples(st.just("started"), st.integers(0, 3)),
+    ).map(list)
+    return {"leg": "lib", "activate": sorted(acts), "cases": cases, "hist": draw(st.lists(item, min_size=3, max_size=25)), "choices": draw(st.lists(st.integers(0, 3), max_size=3))}
+
+
+def lib_program(case):
+    lines = ["flow main"]
+    for a in case["activate"]:
+        lines.append("  activate " + LIB_ACTIVATE[a])
+    lines.append("  while True")
+    for i, (u, b) in enumerate(case["cases"]):
+        lines.append(("    when " if i == 0 else "    or when ") + LIB_USER[u])
+        lines.append("      " + LIB_BOT[b])
+    return "\n".join(lines) + "\n"
+
+
 @st.composite
 def _case(draw):
+    if draw(st.integers(0, 3)) == 0:
+        return draw(_lib_case())
     return {
         "prog": draw(co2.programs()),
         "hist": draw(co2.histories(30)),
@@ -71,11 +135,66 @@ def enumerate_cases(tier):
                 yield {"prog": p, "hist": [list(x) for x in h], "choices": []}
 
 
+_lib = {}
+
+
+def _lib_flows():
+    if "flows" not in _lib:
+        from nemoguardrails import RailsConfig
+
+        cfg = RailsConfig.from_content(
+            colang_content="import core\nimport timing\nimport avatars\n\nflow main\n  match Never()\n",
+            yaml_content='colang_version: "2.x"\nmodels: []',
+        )
+        _lib["flows"] = [f for f in cfg.flows if f.name != "main"]
+    import copy
+
+    return copy.deepcopy(_lib["flows"])
+
+
+class LibSession(smh.Session):
+    """Session over the shipped library: user utterance items on top of the generic action life-cycle items."""
+
+    def __init__(self, text, choices):
+        smh.install()
+        smh.CHOOSER.reset(choices or [])
+        smh.Clock.virtual = 0.0
+        self.running, self.action_type, self.n_user = [], {}, 0
+        self.state = smh.init(text, extra_flows=_lib_flows())
+        self._ledger(self.state.outgoing_events)
+        self.start_events = [dict(e) for e in self.state.outgoing_events]
+
+    def concrete(self, item):
+        k = item[0]
+        if k == "say":
+            self.n_user += 1
+            return {"type": "UtteranceUserActionFinished", "final_transcript": LIB_TEXTS[item[1]], "action_uid": f"user-{self.n_user}", "is_success": True}
+        if k == "saying":
+            return {"type": "UtteranceUserActionTranscriptUpdated", "interim_transcript": LIB_TEXTS[item[1]], "action_uid": f"user-{self.n_user + 1}"}
+        if k == "ustart":
+            return {"type": "UtteranceUserActionStarted", "action_uid": f"user-{self.n_user + 1}"}
+        if k in ("started", "finished") and not self.running:
+            return None
+        ev = super().concrete(item)
+        if ev and ev["type"] == "UtteranceBotActionFinished":
+            ev["final_script"] = "x"
+        return ev
+
+
 def prop(case):
-    text = co2.render(case["prog"])
-    kinds = co2.count_kinds(case["prog"])
+    if case.get("leg") == "lib":
+        text = lib_program(case)
+        kinds = {"matchg": 1, "awaitg": 0, "when": 1, "activate": len(case["activate"]), "startact": 1, "awaitact": 0, "while": 1}
+        from collections import Counter
+
+        kinds = Counter(kinds)
+        mk = lambda: LibSession(text, case["choices"])  # noqa: E731
+    else:
+        text = co2.render(case["prog"])
+        kinds = co2.count_kinds(case["prog"])
+        mk = lambda: smh.Session(text, case["choices"])  # noqa: E731
     try:
-        s = smh.Session(text, case["choices"])
+        s = mk()
     except Exception as e:
         raise Violation("exception-at-start:" + type(e).__name__, f"{e!r}"[:300] + "\n" + text)
     bad = smh.invariants(s.state)
@@ -115,7 +234,9 @@ def prop(case):
         labels.append("while")
     if kinds["when"]:
         labels.append("when")
-    if any(f.get("loop") for f in case["prog"]["flows"]):
+    if case.get("leg") == "lib":
+        labels.append("library")
+    elif any(f.get("loop") for f in case["prog"]["flows"]):
         labels.append("loops")
     if smh.CHOOSER.used:
         labels.append("tie-break-used")
